@@ -18,6 +18,11 @@ ACQUIRE = [
     (r"^parking_lot::.*::read$", "shared", "parking_lot"),
 ]
 GUARD_TYPES = re.compile(r"(MutexGuard|RwLockReadGuard|RwLockWriteGuard|OwnedMutexGuard|OwnedRwLock\w*Guard)")
+GUARD_HEAD = re.compile(r"^([A-Za-z_0-9]+::)*(MutexGuard|RwLockReadGuard|RwLockWriteGuard|OwnedMutexGuard|OwnedRwLock\w*Guard|MappedMutexGuard)<")
+
+
+def is_guard_ty(ty):
+    return GUARD_HEAD.match(ty) is not None
 _FORWARD = ("core::result::Result::expect", "core::result::Result::unwrap", "core::option::Option::expect",
             "core::option::Option::unwrap", "core::result::Result::unwrap_or_else", "core::ops::try_trait::Try::branch",
             "core::result::Result::ok", "core::result::Result::map_err")
@@ -76,7 +81,8 @@ def guards(f):
         chain = {t["dest"]["l"]}
         work = [t["dest"]["l"]]
         # awaited acquisitions
-        if not GUARD_TYPES.search(f.locals[t["dest"]["l"]]) and "Result<" not in f.locals[t["dest"]["l"]]:
+        dty = f.locals[t["dest"]["l"]]
+        if not is_guard_ty(dty) and "Future" in dty:
             for o in await_output(f, t["dest"]["l"]):
                 chain.add(o)
                 work.append(o)
@@ -90,7 +96,7 @@ def guards(f):
                     pr = rv["o"]["p"].get("p", [])
                     if all(e[0] in ("dc", "f") for e in pr):
                         x = s["lhs"]["l"]
-                        if x not in chain and (GUARD_TYPES.search(f.locals[x]) or "Result<" in f.locals[x] or "Option<" in f.locals[x] or "ControlFlow<" in f.locals[x] or "Poll<" in f.locals[x]):
+                        if x not in chain and GUARD_TYPES.search(f.locals[x]) and "Future" not in f.locals[x]:
                             chain.add(x)
                             work.append(x)
             for bb, ct in f.calls():
@@ -99,11 +105,20 @@ def guards(f):
                     if x not in chain:
                         chain.add(x)
                         work.append(x)
-        gl = {l for l in chain if GUARD_TYPES.search(f.locals[l])}
+        gl = {l for l in chain if is_guard_ty(f.locals[l])}
+        # built MIR keeps an unconditional scope-end drop for temporaries that were moved
+        # out on every path: a drop of `l` dominated by a whole-local move of `l` is a no-op
+        moved_at = {}
+        for bb, i, s in f.stmts():
+            if s["k"] == "a" and not s["lhs"].get("p") and s["rv"]["k"] == "use" and s["rv"]["o"]["k"] == "move" \
+                    and not s["rv"]["o"]["p"].get("p") and s["rv"]["o"]["p"]["l"] in gl:
+                moved_at.setdefault(s["rv"]["o"]["p"]["l"], []).append(bb)
         drops = set()
         for bb in f.reachable(0):
             tt = f.blocks[bb]["t"]
-            if tt["k"] == "drop" and not tt["p"].get("p") and tt["p"]["l"] in gl and not any(x in f.locals[tt["p"]["l"]] for x in ("Result<", "Option<", "Poll<", "ControlFlow<")):
+            if tt["k"] == "drop" and not tt["p"].get("p") and tt["p"]["l"] in gl:
+                if any(f.dominates(mb, bb) for mb in moved_at.get(tt["p"]["l"], [])):
+                    continue
                 drops.add(bb)
             # explicit drop(guard) call / move into another function consumes it
             if tt["k"] == "call" and is_call_to(tt, "core::mem::drop") and tt["args"] and op_local(tt["args"][0]) in gl:
